@@ -16,6 +16,8 @@ import (
 	"math/rand"
 	"os"
 	"path/filepath"
+	"strings"
+	"syscall"
 	"testing"
 	"time"
 
@@ -27,7 +29,8 @@ type c16Job struct {
 	Kind     string   `json:"kind"` // "sched" | "dfs"
 	ID       int      `json:"id"`   // sched: run id; dfs: first run id
 	N        int      `json:"n"`
-	Init     string   `json:"init"` // "absent" | "fresh" | "stale"
+	Init     string   `json:"init"`   // "absent" | "fresh" | "stale" | "ghost" (dangling symlink) | "nodir" (telemetry directory unknown)
+	Faults   float64  `json:"faults"` // finish "random": probability of making a call fail / killing a starter
 	AgeSec   int      `json:"ageSec"`
 	Schedule []string `json:"schedule"`
 	Finish   string   `json:"finish"` // "stick" | "rr" | "random"
@@ -46,6 +49,9 @@ func c16TokenState(p string) string {
 	fi, err := os.Lstat(p)
 	if err != nil {
 		return "absent"
+	}
+	if fi.Mode()&os.ModeSymlink != 0 {
+		return "ghost"
 	}
 	if time.Since(fi.ModTime()) < 24*time.Hour {
 		return "fresh"
@@ -134,7 +140,16 @@ func c16One(t *testing.T, base string, j *c16Job, id int, schedule []string, fin
 	local := it.Default.LocalDir()
 	os.MkdirAll(local, 0777)
 	tokenPath := filepath.Join(local, "upload.token")
-	if j.Init != "absent" {
+	initClass := j.Init
+	switch j.Init {
+	case "nodir":
+		// os.UserConfigDir failed: the directory is unknown, nobody may acquire anything
+		it.Default = it.Dir{}
+		initClass = "absent"
+	case "ghost":
+		os.Symlink(filepath.Join(dir, "nowhere", "token"), tokenPath)
+	}
+	if j.Init == "fresh" || j.Init == "stale" {
 		os.WriteFile(tokenPath, nil, 0666)
 		age := time.Duration(j.AgeSec) * time.Second
 		if j.AgeSec == 0 {
@@ -160,7 +175,7 @@ func c16One(t *testing.T, base string, j *c16Job, id int, schedule []string, fin
 		m["run"] = id
 		rt.Out(m)
 	}
-	out := c16Outcome{status: "ok"}
+	out := c16Outcome{status: "ok", executed: []string{}}
 	var fault rt.M
 	// bring every starter to its first system call (no shared effect yet)
 	for _, tk := range s.Tasks {
@@ -169,10 +184,39 @@ func c16One(t *testing.T, base string, j *c16Job, id int, schedule []string, fin
 			fault = rt.M{"task": tk.Name, "op": "prime", "panic": fmt.Sprint(tk.Panic)}
 		}
 	}
-	emit(rt.M{"kind": "obs", "i": 0, "t": "init", "init": j.Init, "token": c16TokenState(tokenPath), "starters": names,
-		"next": "", "acq": false, "op": ""})
+	emit(rt.M{"kind": "obs", "i": 0, "t": "init", "init": initClass, "token": c16TokenState(tokenPath), "starters": names,
+		"next": "", "acq": false, "op": "", "fault": false})
+	// a call the schedule wants to fail: the shim asks the hook after the task was resumed
+	failTask := ""
+	rt.FaultHook = func(kind, path string) error {
+		if failTask == "" || rt.CurrentTask() != failTask {
+			return nil
+		}
+		failTask = ""
+		switch kind {
+		case "os.Stat":
+			return &os.PathError{Op: "stat", Path: path, Err: syscall.EIO}
+		case "os.Remove":
+			return &os.PathError{Op: "remove", Path: path, Err: syscall.EPERM}
+		case "os.OpenFile":
+			return &os.PathError{Op: "open", Path: path, Err: syscall.ENOSPC}
+		}
+		return nil
+	}
+	defer func() { rt.FaultHook = nil }()
 	step := 0
-	doStep := func(tk *rt.Task) bool {
+	doKill := func(tk *rt.Task) {
+		step++
+		s.Kill(tk)
+		out.executed = append(out.executed, "kill:"+tk.Name)
+		out.alts = append(out.alts, nil)
+		emit(rt.M{"kind": "obs", "i": step, "t": "kill", "victim": tk.Name, "op": "kill", "next": "", "acq": false, "fault": false,
+			"token": c16TokenState(tokenPath)})
+	}
+	doStep := func(tk *rt.Task, fail bool) bool {
+		if fail {
+			failTask = tk.Name
+		}
 		var alts []string
 		for _, r := range s.RunnableTasks() {
 			alts = append(alts, r.Name)
@@ -180,11 +224,16 @@ func c16One(t *testing.T, base string, j *c16Job, id int, schedule []string, fin
 		op := c16Next(tk)
 		step++
 		ok := s.Step(tk)
-		out.executed = append(out.executed, tk.Name)
+		failTask = ""
+		if fail {
+			out.executed = append(out.executed, "fail:"+tk.Name)
+		} else {
+			out.executed = append(out.executed, tk.Name)
+		}
 		out.alts = append(out.alts, alts)
 		nx := c16Next(tk)
 		emit(rt.M{"kind": "obs", "i": step, "t": tk.Name, "op": op, "next": nx, "acq": nx == "ret" && results[tk.Name],
-			"token": c16TokenState(tokenPath)})
+			"token": c16TokenState(tokenPath), "fault": fail})
 		if !ok {
 			out.status = "hang"
 			fault = rt.M{"task": tk.Name, "op": op}
@@ -202,11 +251,21 @@ func c16One(t *testing.T, base string, j *c16Job, id int, schedule []string, fin
 		if !alive {
 			break
 		}
+		fail := false
+		if strings.HasPrefix(e, "kill:") {
+			if tk := s.Task(e[5:]); tk != nil && s.Runnable(tk) {
+				doKill(tk)
+			}
+			continue
+		}
+		if strings.HasPrefix(e, "fail:") {
+			fail, e = true, e[5:]
+		}
 		tk := s.Task(e)
 		if tk == nil || !s.Runnable(tk) {
 			continue
 		}
-		alive = doStep(tk)
+		alive = doStep(tk, fail)
 	}
 	rng := rand.New(rand.NewSource(j.Seed + int64(id)))
 	rr := 0
@@ -220,13 +279,21 @@ func c16One(t *testing.T, base string, j *c16Job, id int, schedule []string, fin
 		switch finish {
 		case "random":
 			tk = rs[rng.Intn(len(rs))]
+			if j.Faults > 0 && rng.Float64() < j.Faults {
+				if rng.Intn(3) == 0 {
+					doKill(tk)
+					continue
+				}
+				alive = doStep(tk, true)
+				continue
+			}
 		case "rr":
 			tk = rs[rr%len(rs)]
 			rr++
 		default:
 			tk = rs[0]
 		}
-		alive = doStep(tk)
+		alive = doStep(tk, false)
 	}
 	acquired := []string{}
 	for _, n := range names {
@@ -234,7 +301,7 @@ func c16One(t *testing.T, base string, j *c16Job, id int, schedule []string, fin
 			acquired = append(acquired, n)
 		}
 	}
-	emit(rt.M{"kind": "result", "n": j.N, "init": j.Init, "status": out.status, "fault": fault, "acquired": acquired,
+	emit(rt.M{"kind": "result", "n": j.N, "init": initClass, "initKind": j.Init, "status": out.status, "fault": fault, "acquired": acquired,
 		"schedule": out.executed, "steps": step, "why": why, "tokenAfter": c16TokenState(tokenPath)})
 	return out
 }
